@@ -2,6 +2,7 @@
 from __future__ import annotations
 import itertools
 from xform import *   # noqa
+from xform import snapshot
 import xgen
 
 PROP = 'C09'
@@ -26,25 +27,78 @@ def all_recipes(prog, R):
     basics = ['inline()', 'lift_context()', 'close()', 'simplify()', 'inline(recursive=False)']
     for a, b in itertools.permutations(basics, 2): ext.append(f'seq({a}, {b})')
     ext += ['seq(inline(), lift_context(), simplify())', 'seq(close(), inline(), lift_context())', 'seq(lift_context(), close(), inline(), simplify())',
-            'seq(inline(), unroll_for(times=1))', 'seq(inline(), elim_iter(), fuse())', "seq(inline(), single('ConstFold'))", "seq(inline(), single('DeadCodeEliminate'))",
+            "seq(inline(), single('ConstFold'))", "seq(inline(), single('DeadCodeEliminate'))",
             "seq(inline(), single('CopyPropagate'))"]
+    ext += ['twice(inline())', 'twice(inline(recursive=False))', 'twice(inline(0))', 'twice(close())', 'twice(lift_context())', 'seq(twice(inline(recursive=False)), inline())']
+    if prog.get('pinned') and prog.get('decl'):
+        # contexts that agree with the function's own pin in some attributes and differ in others: the pin must keep winning
+        for v in pin_variants(prog['decl']):
+            ext += [f'mono({v!r})', f'module_spec({v!r})', f'Monomorphize({v!r})', f'seq(mono({v!r}), simplify())', f'twice(mono({v!r}))']
     if not prog.get('pinned'):
         for c in MONO:
             ext += [f'mono({c!r})']
+        for c in R.sample(MONO, 3):
+            ext += [f'module_spec({c!r})', f'twice(mono({c!r}))']
         for c in R.sample(MONO, 4):
             ext += [f"mono({c!r}, args='infer')", f"mono({c!r}, args='none')", f'Monomorphize({c!r})', f'seq(mono({c!r}), simplify())', f'seq(mono({c!r}), inline())',
                     f'seq(inline(), mono({c!r}))', f'seq(mono({c!r}), lift_context())']
     return CORE, ext
 
+def pin_variants(decl: str):
+    try:
+        ctx = eval(decl, {'fp': fp})
+    except Exception:
+        return []
+    out = [decl]
+    rm = getattr(ctx, 'rm', None)
+    others = [r for r in ('RTZ', 'RAZ', 'RTP', 'RNA', 'RNE') if rm is None or fp.RM[r] != rm][:3]
+    out += [f'({decl}).with_params(rm=fp.RM.{r})' for r in others]
+    if hasattr(ctx, 'overflow'): out.append(f'({decl}).with_params(overflow=fp.OV.SATURATE)')
+    if hasattr(ctx, 'emin') and hasattr(ctx, 'pmax') and not hasattr(ctx, 'es'): out.append(f'({decl}).with_params(emin={ctx.emin - 7})')
+    if hasattr(ctx, 'pmax') and not hasattr(ctx, 'es'): out.append(f'({decl}).with_params(pmax={ctx.pmax + 3})')
+    ok = []
+    for v in out:
+        try: eval(v, {'fp': fp}); ok.append(v)
+        except Exception: pass
+    return ok + ['fp.FP16']
+
 PRE = ['simplify()', 'unroll_for(times=1)', "single('ConstFold')", 'elim_iter()', 'unroll_while(times=1)']
+
+def pinned_recipes(prog, R):
+    ax = prog.get('axes') or {}
+    ids = set(ax.get('idioms') or []); callees = set(ax.get('callees') or [])
+    out = ['inline()']
+    if callees & {'const', 'zero-param', 'only-return', 'leaf'}:
+        out += [R.choice(['twice(inline(recursive=False))', 'twice(inline())']), R.choice(['seq(inline(0), inline(0))', 'inline_each(recursive=False)', 'inline(recursive=False)'])]
+    if callees & {'chain'}: out += ['inline(recursive=False)', 'repeat(inline(recursive=False), 2)']
+    if prog.get('pinned') and prog.get('decl'):
+        vs = pin_variants(prog['decl'])
+        if len(vs) > 2:
+            a, b = R.sample(vs[1:-1], 2) if len(vs) > 3 else (vs[1], vs[1])
+            out += [f'mono({a!r})', R.choice([f'module_spec({b!r})', f'Monomorphize({b!r})', f'twice(mono({b!r}))'])]
+    elif not prog.get('pinned'):
+        out += [f'mono({R.choice(MONO)!r})', R.choice([f'module_spec({R.choice(MONO)!r})', f"mono({R.choice(MONO)!r}, args='infer')"])]
+    if 'lift' in ids or ax.get('ctx') in ('static-ctor', 'nested-static', 'as-target'): out += ['lift_context()']
+    if 'free-var' in ids or 'free-var' in callees: out += ['close()', R.choice(['seq(close(), inline())', 'seq(inline(), close())'])]
+    if ax.get('callpos') in ('while-cond', 'comp-elt', 'ifexpr', 'and-or', 'chain-cmp', 'after-read', 'arg-effect', 'index'):
+        out += [R.choice(["inline(where=('site', 0))", 'inline(where=0)', 'FuncInline(shared=True)'])]
+    seen, res = set(), []
+    for r in out:
+        if r not in seen: seen.add(r); res.append(r)
+    return res
 
 def recipes_for_factory(tier):
     def recipes_for(prog, R):
         core, ext = all_recipes(prog, R)
+        pins = pinned_recipes(prog, R)
         if tier == 'quick':
-            monos = [e for e in ext if 'mono' in e.lower()]
-            return core + R.sample(ext, 10) + R.sample(monos, min(3, len(monos)))
-        return core + ext
+            rs = pins[:7] + R.sample(core, 2) + R.sample(ext, 3)
+        else:
+            rs = pins + core + ext
+        seen, res = set(), []
+        for r in rs:
+            if r not in seen: seen.add(r); res.append(r)
+        return res
     return recipes_for
 
 def _has_negative_zero(v) -> bool:
@@ -69,24 +123,27 @@ def _ctor_shapes(fn):
     return arith, var
 
 def classify(d, fn, xf):
-    # F55 / F56: known lift_context defects (hoisted `ctx = <constructor>` evaluated under the ambient context instead of REAL;
-    # binding hoisted above the definitions its expression reads)
-    if 'lift_context' in d['strategy'] or 'LiftContext' in d['strategy']:
-        arith, var = _ctor_shapes(fn)
-        if var and d['transformed_result'] in ('err KeyError', 'err Unbound', 'err NameError', 'err UnboundLocalError'): return 'F56'
-        if arith and (fn.ast.ctx is not None or xf.ast.ctx is not None or d['ctx'] is not None): return 'F55'
-    # F59: close() materialises a captured Python float -0.0 as the literal 0 (sign of zero lost)
-    if 'close' in d['strategy'] or 'FreeVarElim' in d['strategy']:
+    # (F55/F56 lift_context and F59 close(-0.0) were repaired in /repo: they are no longer tagged, a recurrence is a violation)
+    if 'inline' in d['strategy'] or 'FuncInline' in d['strategy']:
+        from fpy2.function import Function
+        from fpy2.analysis import DefineUse
         try:
-            env = fn.ast.env
-            if any(str(fv) in env and _has_negative_zero(env[str(fv)]) for fv in fn.ast.free_vars): return 'F59'
+            callees = [f for f, _, _ in snapshot(fn)][1:]
+            # F57: a callee reads a free (module-level) variable whose name the caller binds locally
+            local = {str(dd.name) for dd in DefineUse.analyze(fn.ast).defs if not getattr(dd, 'is_free', False)}
+            for cf in callees:
+                if any(str(fv) in local and not isinstance(cf.ast.env.get(str(fv)), (Function, type(fp))) for fv in cf.ast.free_vars): return 'F57'
+            # F58: a callee's `with ... as c` target keeps its name while the uses of c are renamed
+            for cf in callees:
+                for _, blk in T.walk_blocks(cf.ast):
+                    if any(isinstance(st, A.ContextStmt) and isinstance(st.target, NamedId) for st in blk.stmts): return 'F58'
         except Exception:
             pass
     return None
 
 def build_programs(seed, tier):
     R = Prng(seed, 'C09:progs')
-    n_main, n_other = (480, 120) if tier == 'quick' else (400, 100)
+    n_main, n_other = (230, 40) if tier == 'quick' else (800, 200)
     sc = float(os.environ.get('VERIF_XGEN_SCALE', '1'))   # debugging aid: shrink the run
     n_main, n_other = int(n_main * sc), int(n_other * sc)
     progs = corpus_progs('c09_corpus.py', R, ctxs=(None, 'fp.IEEEContext(5, 16, fp.RM.RTZ)'))
@@ -104,7 +161,7 @@ def build_programs(seed, tier):
 
 def run(rep, tier, seed):
     progs, stats = build_programs(seed, tier)
-    opts = {'inputs_cap': 7 if tier == 'quick' else None, 'ctx_every': 3 if tier == 'quick' else 2, 'max_traces': 5 if tier == 'quick' else 10,
+    opts = {'inputs_cap': 5 if tier == 'quick' else None, 'ctx_every': 3 if tier == 'quick' else 2, 'max_traces': 3 if tier == 'quick' else 10,
             'deadline_s': 900 if tier == 'quick' else 3600, 'prog_budget': 60 if tier == 'quick' else 240}
     run_xforms(rep, tier, seed, PROP, progs, recipes_for_factory(tier), classify=classify, opts=opts)
     summarize_cov(rep, stats)
